@@ -1046,8 +1046,8 @@ def scripted_configs(ctx: Ctx) -> List[tuple]:
                 StallsRead=ctx.pick(["headers", "partial", "body", "qpart", "data", "sock"], ALL_STALLS),
                 Orders=ctx.pick(["vb", "hold"], ["vb", "bv", "hold"]))
     out = [("body none", main),
-           ("blocked writer", dict(base, Body="block", AllowPause=True, StallsTotal=["write", "headers"],
-                                   StallsRead=["write", "body"], Orders=["vb"])),
+           ("blocked writer", dict(base, Body="block", AllowPause=True, StallsTotal=["write", "wresume"],
+                                   StallsRead=["write", "wresume"], Orders=["vb"])),
            ("expect100", dict(base, Body="small", Expect100=True, StallsTotal=["cont", "headers"],
                               StallsRead=["cont", "headers"], Orders=["vb"])),
            ("big chunk", dict(base, BigChunk=True, StallsTotal=["data"], StallsRead=["data", "none"], Orders=["vb"]))]
